@@ -414,6 +414,32 @@ func pairLine(n1 uint64, a rawTx, n2 uint64, b rawTx) string {
 	return fmt.Sprintf("P %d %s | %d %s", n1, a.text(), n2, b.text())
 }
 
+// senderCacheOracle: types.Sender caches the derived address on the transaction object; presenting the SAME object
+// to the signer of another network must still be rejected, and the cached answer for the right network must stay.
+func senderCacheOracle(netID uint64, r rawTx, keyIdx int) (what string) {
+	defer func() {
+		if p := recover(); p != nil {
+			what = fmt.Sprintf("types.Sender panicked: %v", p)
+		}
+	}()
+	tx, err := r.toTx()
+	if err != nil {
+		return ""
+	}
+	s1, s2 := types.NewYouSigner(netID), types.NewYouSigner(netID+1)
+	a1, e1 := types.Sender(s1, tx)
+	if e1 != nil || a1 != addrs[keyIdx] {
+		return ""
+	}
+	if a2, e2 := types.Sender(s2, tx); e2 == nil {
+		return fmt.Sprintf("sender cache: a transaction authenticated for network %d is accepted as %x by the signer of network %d", netID, a2, netID+1)
+	}
+	if a3, e3 := types.Sender(s1, tx); e3 != nil || a3 != a1 {
+		return "sender cache: the answer for the right network changed after asking another signer"
+	}
+	return ""
+}
+
 type pairFail struct{ kind, what string }
 
 // evalPair: orig must recover a sender; the mutant must be rejected or recover a different one.
@@ -483,6 +509,9 @@ func runSenderPart(c *vh.Ctx, drv *vh.Driver) error {
 		if g.class != "ok" || g.addr != addrs[keyIdx] {
 			report("oracle", fmt.Sprintf("a transaction signed by key %d for network %d authenticates as %s %x", keyIdx, netID, g.class, g.addr),
 				fmt.Sprintf("signed-%d", i), []string{fmt.Sprintf("S %d %s", netID, o.text())})
+		}
+		if w := senderCacheOracle(netID, o, keyIdx); w != "" {
+			report("oracle", w, fmt.Sprintf("cache-%d", i), []string{fmt.Sprintf("S %d %s", netID, o.text())})
 		}
 		res.Count("S|"+fmt.Sprint(netID)+"|"+o.text(), true)
 		res.Dist("sender:signed-ok")
